@@ -24,6 +24,20 @@ namespace Aurora.Tree
 open Aurora.Bmt (Bytes)
 open Aurora.Cac (le64)
 
+/-! ## The instance used by the repository (checked against `Aurora/Generated/Consts.lean` in `Props/C02`) -/
+/-- `boson.ChunkSize` -/
+def chunkBytes : Nat := 262144
+/-- `boson.Branches` (plain references per intermediate chunk) -/
+def branching : Nat := 8192
+/-- `boson.EncryptedBranches` -/
+def encBranching : Nat := 4096
+/-- `boson.HashSize` (plain reference length; encrypted references are twice as long) -/
+def hashBytes : Nat := 32
+/-- `boson.SpanSize` -/
+def spanBytes : Nat := 8
+/-- `hashtrie.maxLevel` -/
+def maxLevel : Nat := 8
+
 /-- `binary.LittleEndian.Uint64(b[:8])` -/
 def fromLe64 (b : Bytes) : Nat := (b.take 8).foldr (fun x acc => x.toNat + 256 * acc) 0
 
